@@ -226,6 +226,43 @@ def r4_inputs(ctx, cg):
                              and params[r] in ("AlgorithmSettings",)):
                         n += 1
                         ctx.violation("C13.R4", f, c, f"`{U(c.func)}` mutates the caller's {INPUT_TYPES[params[r]]} `{r}`")
+        # nested containers of the caller's settings reached through a local name (`vp = settings.parameters["visit_parameters"]`) are still the
+        # caller's: a write through the local, or handing it to a function that writes through its parameter, modifies the object passed in
+        sparams = {p_ for p_, t_ in params.items() if t_ == "AlgorithmSettings" and p_ not in rebound}
+        if sparams:
+            from ..effects import SharedDefaults, StateWrites
+            if not hasattr(ctx, "_c13_mut"):
+                sd_ = SharedDefaults(ix)
+                ctx._c13_mut = sd_.param_mutations(cg)
+            mut = ctx._c13_mut
+
+            def nested(e):
+                while isinstance(e, (ast.Attribute, ast.Subscript)):
+                    e = e.value
+                return isinstance(e, ast.Name) and e.id in sparams
+            alias = {}
+            for st in sorted(statements(f.node), key=lambda s_: s_.lineno):
+                if isinstance(st, ast.Assign) and len(st.targets) == 1 and isinstance(st.targets[0], ast.Name) and isinstance(st.value, (ast.Attribute, ast.Subscript)) and nested(st.value) \
+                        and ".parameters" in U(st.value):
+                    alias[st.targets[0].id] = U(st.value)
+            for c in ast.walk(f.node):
+                if isinstance(c, ast.Call) and isinstance(c.func, ast.Attribute) and isinstance(c.func.value, ast.Name) and c.func.value.id in alias \
+                        and c.func.attr in ("update", "pop", "clear", "setdefault", "append", "extend", "insert", "remove", "sort", "popitem"):
+                    n += 1
+                    ctx.violation("C13.R4", f, c, f"`{U(c)[:70]}` mutates `{alias[c.func.value.id]}` of the caller's settings through the local `{c.func.value.id}`")
+            for st in statements(f.node):
+                for t in store_targets(st):
+                    if isinstance(t, ast.Subscript) and isinstance(t.value, ast.Name) and t.value.id in alias:
+                        n += 1
+                        ctx.violation("C13.R4", f, st, f"`{U(st)[:70]}` stores into `{alias[t.value.id]}` of the caller's settings through the local `{t.value.id}`")
+            for site in cg.sites.get(f.key, []):
+                for tgt in site.targets:
+                    for q, arg in StateWrites._bind_args(site.node, tgt):
+                        is_alias = (isinstance(arg, ast.Name) and arg.id in alias) or (isinstance(arg, (ast.Attribute, ast.Subscript)) and nested(arg) and ".parameters" in U(arg))
+                        if is_alias and q in mut.get(tgt.key, ()):
+                            n += 1
+                            ctx.violation("C13.R4", f, site.node, f"`{U(site.node)[:70]}` hands `{alias.get(getattr(arg, 'id', None), U(arg))}` of the caller's settings to {tgt.qual}({q}=...), "
+                                          "which writes through that parameter: the settings object passed in is modified")
     ctx.ok("C13.R4", ("leaspy.algo.base", "<package>"), None, "no store / in-place call through settings, dataset, data or table parameters", construct="package-wide scan of stores rooted at input parameters")
 
 
